@@ -32,6 +32,9 @@ BIN=$VERIF/bin/vcheck-$FLAVOUR
 (
   flock 9
   cd "$VERIF/harness" || exit 2
+  if ! grep -q "=> $REPO\$" go.mod; then
+    sed -i "s#^replace github.com/openfga/openfga => .*#replace github.com/openfga/openfga => $REPO#" go.mod
+  fi
   cp "$REPO/go.sum" go.sum
   cat "$VERIF/harness/go.sum.extra" >> go.sum 2>/dev/null
   "$VERIF_GO" build -tags verif $RACEFLAG -o "$BIN.$$" ./cmd/vcheck > "$SCRATCH/build.log" 2>&1
